@@ -37,6 +37,11 @@ def _round12(x):
     return float(f"{x:.12g}")
 
 
+def _round_exp(x):
+    """Constant exponents: 14 significant digits (keeps p * (1/p) within 1e-13 of 1)."""
+    return float(f"{float(x):.14g}")
+
+
 def canonicalise(ob):
     old = ob["nodes"]
     new, index, used = [], {}, set()
@@ -245,13 +250,26 @@ def canonicalise(ob):
                 if c > 0:
                     g, q = factor_positive(a)
                     used.add("positive constant factors moved out of abs / signum / sqrt / pow")
-                    inner = atom_poly(mk(["pow", mat(q), const_node(_round12(ev))]))
+                    # (x^p)^e = x^(p e) for a single pow atom (x >= 0 where it is defined); p e within 1e-11 of 1 counts as 1
+                    if len(q) == 1:
+                        (qm, qc), = q.items()
+                        if qc == 1 and len(qm) == 1 and new[qm[0][0]][0] == "pow" and new[new[qm[0][0]][2]][0] == "const":
+                            at, k = qm[0]
+                            base, pe = new[at][1], _f(new[new[at][2]][1])
+                            tot = pe * k * ev
+                            used.add("(x^p)^e = x^(p e) on a pow atom")
+                            if abs(tot - 1.0) < 1e-11:
+                                form[i] = ("p", p_scale(p_atom(base), Fraction(float(g) ** ev)))
+                            else:
+                                form[i] = ("p", p_scale(atom_poly(mk(["pow", base, const_node(_round_exp(tot))])), Fraction(float(g) ** ev)))
+                            continue
+                    inner = atom_poly(mk(["pow", mat(q), const_node(_round_exp(ev))]))
                     form[i] = ("p", p_scale(inner, Fraction(float(g) ** ev)))
                     continue
             if is_const(e) and is_const(a) and cval(a) > 0:
                 form[i] = ("p", p_const(Fraction(float(cval(a)) ** float(cval(e)))))
                 continue
-            form[i] = ("p", atom_poly(mk(["pow", mat(a), mat(e)])))
+            form[i] = ("p", atom_poly(mk(["pow", mat(a), const_node(_round_exp(cval(e))) if is_const(e) else mat(e)])))
         elif op in ("lt", "le", "eq"):
             form[i] = ("b", mk([op, node_of(n[1]), node_of(n[2])]))
         elif op in ("and", "or"):
@@ -260,7 +278,17 @@ def canonicalise(ob):
             form[i] = ("b", mk(["not", node_of(n[1])]))
         elif op == "ite":
             form[i] = ("p", atom_poly(mk(["ite", node_of(n[1]), node_of(n[2]), node_of(n[3])])))
-        else:   # min max cbrt exp ln sin cos tan asin acos atan atan2 floor ceil round
+        elif op in ("sin", "cos"):
+            # periodicity: a term (2 pi to 12 digits) * m * (integer-valued atom: floor / ceil / round result) is dropped from the argument
+            a = dict(poly_of(n[1]))
+            for m, c in list(a.items()):
+                if len(m) == 1 and m[0][1] == 1 and new[m[0][0]][0] in ("floor", "ceil", "round"):
+                    turns = float(c) / 6.283185307179586
+                    if abs(turns - round(turns)) < 1e-11 * max(1.0, abs(turns)) and round(turns) != 0:
+                        used.add("integer multiples of 2 pi (to 1e-11) times an integer-valued atom dropped from sin / cos arguments")
+                        del a[m]
+            form[i] = ("p", atom_poly(mk([op, mat(a)])))
+        else:   # min max cbrt exp ln tan asin acos atan atan2 floor ceil round
             form[i] = ("p", atom_poly(mk([op] + [node_of(x) for x in n[1:]])))
 
     remap = {}
